@@ -216,7 +216,13 @@ impl Program {
 
     fn render_file(file: &File) -> String {
         let mut s = String::new();
-        for l in &file.lines {
+        for (i, l) in file.lines.iter().enumerate() {
+            // a directive may be preceded by white space (removed by the line state machine): vary it by position
+            if !matches!(l, Line::Text(_)) {
+                for _ in 0..(i % 3) {
+                    s.push(' ');
+                }
+            }
             match l {
                 Line::Define(t) => {
                     s.push_str("#define");
@@ -395,6 +401,7 @@ fn err_name(e: &rssl_preprocess::PreprocessError) -> String {
         E::EndIfNotMatched => "EndIfNotMatched".into(),
         E::UnknownPragma(_) => "UnknownPragma".into(),
         E::PragmaOnceInUnknownFile => "PragmaOnceInUnknownFile".into(),
+        E::IncludeDepthExceeded(_) => "IncludeDepthExceeded".into(),
         // variants added to the implementation after this harness was written (keeps the harness building)
         #[allow(unreachable_patterns)]
         _ => "OtherPreprocessError".into(),
@@ -416,10 +423,25 @@ fn run_real(p: &Program) -> Real {
     let values: Vec<(String, String)> = p.api.iter().map(|(n, v)| (spell_all(n), spell_all(v))).collect();
     let defines: Vec<(&str, &str)> = values.iter().map(|(n, v)| (n.as_str(), v.as_str())).collect();
     let entry = p.files[0].name.clone();
+    let plain = p.files.iter().all(|f| f.name == f.real);
     let r = guard(|| {
         let mut sm = rssl::text::SourceManager::new();
-        let mut inc = AliasFiles(files);
-        match rssl_preprocess::preprocess(&entry, &mut sm, &mut inc, &defines) {
+        let mut inc = AliasFiles(files.clone());
+        // without aliases the repository's own handler for arrays of (name, text) pairs serves the files
+        let pairs: Vec<(&str, &str)> = files.iter().map(|f| (f.0.as_str(), f.2.as_str())).collect();
+        macro_rules! with_array {
+            ($($n:literal),*) => {
+                match pairs.len() {
+                    $($n if plain => {
+                        let mut arr: [(&str, &str); $n] = [("", ""); $n];
+                        arr.copy_from_slice(&pairs);
+                        rssl_preprocess::preprocess(&entry, &mut sm, &mut arr, &defines)
+                    })*
+                    _ => rssl_preprocess::preprocess(&entry, &mut sm, &mut inc, &defines),
+                }
+            };
+        }
+        match with_array!(1, 2, 3, 4, 5, 6) {
             Ok(tokens) => {
                 let lexed = rssl_preprocess::prepare_tokens(&tokens);
                 let mut out = Vec::new();
@@ -1451,6 +1473,41 @@ fn generate(rng: &mut Rng, hist: &mut Hist) -> Vec<Program> {
             files[fi].lines.push(Line::Warning);
         }
     }
+    // malformed directives now and then (the whole compilation is rejected: InvalidDefine / InvalidUndef)
+    if g.rng.chance(1, 30) {
+        let bad: Vec<Vec<Tok>> = vec![
+            vec![],
+            vec![Tok::Ws, Tok::Int("1".into()), Tok::Ws, Tok::Id("P".into())],
+            vec![Tok::Ws, Tok::Id("F".into()), Tok::LParen, Tok::Int("1".into()), Tok::RParen, Tok::Ws, Tok::Id("P".into())],
+            vec![Tok::Ws, Tok::Id("F".into()), Tok::LParen, Tok::Id("X".into()), Tok::Ws, Tok::Id("P".into())],
+            vec![Tok::Ws, Tok::Id("F".into()), Tok::LParen, Tok::Id("X".into()), Tok::Ws, Tok::Id("Y".into()), Tok::RParen],
+            vec![Tok::Ws, Tok::Id("F".into()), Tok::LParen, Tok::Id("X".into()), Tok::Comma, Tok::RParen, Tok::Ws, Tok::Id("P".into())],
+            vec![Tok::Ws, Tok::Id("F".into()), Tok::LParen, Tok::Comma, Tok::Id("X".into()), Tok::RParen],
+            vec![Tok::Ws, Tok::LParen, Tok::Id("X".into()), Tok::RParen],
+        ];
+        let l = g.rng.pick(&bad).clone();
+        let fi = g.rng.below(nfiles as u64) as usize;
+        let at = g.rng.below(files[fi].lines.len() as u64 + 1) as usize;
+        let at = if once[fi] { at.max(1) } else { at };
+        let at = safe_pos(&files[fi].lines, at.min(files[fi].lines.len()));
+        files[fi].lines.insert(at, Line::Define(l));
+        g.hist.add("line:malformed-define");
+    }
+    if g.rng.chance(1, 40) {
+        let bad: Vec<Vec<Tok>> = vec![
+            vec![],
+            vec![Tok::Ws, Tok::Int("1".into())],
+            vec![Tok::Ws, Tok::Id("A".into()), Tok::Ws, Tok::Id("B".into())],
+            vec![Tok::Ws, Tok::Id("A".into()), Tok::LParen, Tok::RParen],
+        ];
+        let l = g.rng.pick(&bad).clone();
+        let fi = g.rng.below(nfiles as u64) as usize;
+        let at = g.rng.below(files[fi].lines.len() as u64 + 1) as usize;
+        let at = if once[fi] { at.max(1) } else { at };
+        let at = safe_pos(&files[fi].lines, at.min(files[fi].lines.len()));
+        files[fi].lines.insert(at, Line::Undef(l));
+        g.hist.add("line:malformed-undef");
+    }
     // include edges: forward edges anywhere; backward edges only into pragma-once files
     for i in 0..nfiles {
         for j in 1..nfiles {
@@ -1473,6 +1530,18 @@ fn generate(rng: &mut Rng, hist: &mut Hist) -> Vec<Program> {
                     g.hist.add("include:repeated");
                 }
             }
+        }
+    }
+    // an include cycle through a file without `#pragma once` now and then: the nesting limit of #include
+    if g.rng.chance(1, 60) {
+        let cands: Vec<usize> = (0..nfiles).filter(|i| !once[*i]).collect();
+        if !cands.is_empty() {
+            let i = *g.rng.pick(&cands);
+            let name = files[i].name.clone();
+            let at = g.rng.below(files[i].lines.len() as u64 + 1) as usize;
+            let at = safe_pos(&files[i].lines, at.min(files[i].lines.len()));
+            files[i].lines.insert(at, Line::Include(name));
+            g.hist.add("include:cycle-without-pragma-once");
         }
     }
     // every placement of the leading definitions: all in the file / all in the API list / a random split
@@ -1749,6 +1818,144 @@ fn judge_limit(line: &str, p: &Program, out: &mut Out, hist: &mut Hist) {
     }
 }
 
+
+// ------------------------------------------------------------------------------------------------
+// `compile()`: defines passed through the API vs `#define` lines placed before the first line
+// ------------------------------------------------------------------------------------------------
+//
+// request : C12.compile \t <target dx|vk|vkba|msl> \t <defs> \t <expression>
+//   defs  : `|`-separated, in order: `A:HEAD=BODY` (passed through `CompileArgs::defines`) or `F:HEAD=BODY` (a `#define`
+//           line of the entry file); HEAD = `NAME` or `NAME(X)`
+//   the entry file is the `F:` lines followed by `int f(int a) { return <expression>; }`
+// observe : `ok <digest of the generated text>` | `err` | `panic <site>`  (of the program as requested)
+// oracle  : the same program with every `A:` define turned into a `#define` line in front of the first line (API
+//           defines first, in their order) must compile to the same result
+
+fn compile_variant(tgt: crate::compile_util::Tgt, defs: &[(bool, String, String)], expr: &str, all_in_file: bool) -> crate::compile_util::CompileOutcome {
+    use crate::compile_util::*;
+    let mut src = String::new();
+    let mut api: Vec<(String, String)> = Vec::new();
+    if all_in_file {
+        for (is_api, head, body) in defs {
+            if *is_api {
+                src.push_str(&format!("#define {} {}\n", head, body));
+            }
+        }
+    }
+    for (is_api, head, body) in defs {
+        if *is_api {
+            if !all_in_file {
+                api.push((head.clone(), body.clone()));
+            }
+        } else {
+            src.push_str(&format!("#define {} {}\n", head, body));
+        }
+    }
+    src.push_str(&format!("int f(int a) {{ return {}; }}\n", expr));
+    let files = [("main.rssl".to_string(), src)];
+    let defines: Vec<(&str, &str)> = api.iter().map(|(n, v)| (n.as_str(), v.as_str())).collect();
+    compile(&Job { entry: "main.rssl", files: &files, defines: &defines, target: tgt, mode: Mode::NoPipeline, validate_layout: false })
+}
+
+fn judge_compile(line: &str, out: &mut Out, hist: &mut Hist) {
+    use crate::compile_util::*;
+    let f: Vec<&str> = line.split('\t').collect();
+    if f.len() != 4 {
+        out.case(line, "-", "SKIP:bad-request");
+        return;
+    }
+    let Some(tgt) = Tgt::parse(f[1]) else {
+        out.case(line, "-", "SKIP:bad-target");
+        return;
+    };
+    let mut defs = Vec::new();
+    if f[2] != "-" {
+        for d in f[2].split('|') {
+            let Some((place, rest)) = d.split_once(':') else {
+                out.case(line, "-", "SKIP:bad-define");
+                return;
+            };
+            let Some((head, body)) = rest.split_once('=') else {
+                out.case(line, "-", "SKIP:bad-define");
+                return;
+            };
+            defs.push((place == "A", head.to_string(), body.to_string()));
+        }
+    }
+    let a = compile_variant(tgt, &defs, f[3], false);
+    let b = compile_variant(tgt, &defs, f[3], true);
+    let obs = match &a {
+        CompileOutcome::Ok(_) => format!("ok {}", a.digest()),
+        CompileOutcome::Err(_) => "err".to_string(),
+        CompileOutcome::Panic(p) => format!("panic {}", p),
+    };
+    let same = match (&a, &b) {
+        (CompileOutcome::Ok(x), CompileOutcome::Ok(y)) => x == y,
+        (CompileOutcome::Err(_), CompileOutcome::Err(_)) => true,
+        _ => false,
+    };
+    let oracle = if let CompileOutcome::Panic(p) = &a {
+        format!("FAIL:panic {}", p)
+    } else if same {
+        hist.add(if matches!(a, CompileOutcome::Ok(_)) { "compile:same-output" } else { "compile:both-rejected" });
+        "ok".to_string()
+    } else {
+        hist.add("compile:api-defines-differ-from-define-lines");
+        format!("FAIL:compile-differs[api-vs-define-lines] with #define lines: {}", match &b {
+            CompileOutcome::Ok(_) => format!("ok {}", b.digest()),
+            CompileOutcome::Err(e) => format!("err {}", one_line(e)),
+            CompileOutcome::Panic(p) => format!("panic {}", p),
+        })
+    };
+    out.case(line, &obs, &oracle);
+}
+
+fn generate_compile(rng: &mut Rng, hist: &mut Hist) -> String {
+    let tgt = *rng.pick(&["dx", "vk", "vkba", "msl"]);
+    let n = 1 + rng.below(4) as usize;
+    let mut defs: Vec<String> = Vec::new();
+    let mut names: Vec<(String, bool)> = Vec::new(); // (name, function-like)
+    for i in 0..n {
+        // now and then the name of an earlier macro again (redefinition: the later definition wins) or a built-in one
+        let name = if !names.is_empty() && rng.chance(1, 6) {
+            hist.add("compile:redefinition");
+            names[rng.below(names.len() as u64) as usize].0.clone()
+        } else if rng.chance(1, 12) {
+            hist.add("compile:redefines-built-in");
+            "RSSL_TARGET_HLSL".to_string()
+        } else {
+            format!("K{}", i)
+        };
+        let fnlike = rng.chance(1, 3);
+        let operand = |rng: &mut Rng, names: &Vec<(String, bool)>| -> String {
+            let objs: Vec<&String> = names.iter().filter(|(_, f)| !f).map(|(n, _)| n).collect();
+            if !objs.is_empty() && rng.chance(1, 2) {
+                (*rng.pick(&objs)).clone()
+            } else {
+                (1 + rng.below(9)).to_string()
+            }
+        };
+        let body = if fnlike {
+            format!("((X) {} {})", rng.pick(&["+", "*", "-"]), operand(rng, &names))
+        } else if rng.chance(1, 3) {
+            (1 + rng.below(20)).to_string()
+        } else {
+            format!("({} {} {})", operand(rng, &names), rng.pick(&["+", "*", "-"]), operand(rng, &names))
+        };
+        let place = if rng.chance(1, 2) { "A" } else { "F" };
+        let head = if fnlike { format!("{}(X)", name) } else { name.clone() };
+        defs.push(format!("{}:{}={}", place, head, body));
+        names.retain(|(n, _)| *n != name);
+        names.push((name, fnlike));
+    }
+    let mut terms = vec!["a".to_string()];
+    for _ in 0..(1 + rng.below(3)) {
+        let (nm, f) = rng.pick(&names).clone();
+        terms.push(if f { format!("{}(a + {})", nm, rng.below(5)) } else { nm });
+    }
+    format!("C12.compile\t{}\t{}\t{}", tgt, defs.join("|"), terms.join(" + "))
+}
+
 pub fn run(args: &Args, out: &mut Out) {
     let mut hist = Hist::default();
     if std::env::var("C12_WORKER").is_ok() {
@@ -1788,6 +1995,10 @@ pub fn run(args: &Args, out: &mut Out) {
     }
     if let Some(lines) = args.request_lines() {
         for line in lines {
+            if line.starts_with("C12.compile\t") {
+                judge_compile(&line, out, &mut hist);
+                continue;
+            }
             if line.starts_with("C12.limit\t") {
                 match Program::decode(&line) {
                     Some(p) if !p.files.is_empty() => judge_limit(&line, &p, out, &mut hist),
@@ -1817,6 +2028,11 @@ pub fn run(args: &Args, out: &mut Out) {
     }
     let programs = all.len() as u64;
     run_batch(&all, out, &mut hist);
+    // defines passed to compile() vs #define lines
+    for _ in 0..(if args.thorough() { 4000 } else { 300 }) {
+        let line = generate_compile(&mut rng, &mut hist);
+        judge_compile(&line, out, &mut hist);
+    }
     out.stat(&format!("{{\"programs\":{},\"hist\":{}}}", programs, hist.json()));
 }
 
@@ -1911,7 +2127,9 @@ fn run_batch(all: &[Program], out: &mut Out, hist: &mut Hist) {
                 }
             }
         }
-        let _ = child.kill();
+        if stalled {
+            let _ = child.kill();
+        }
         let _ = child.wait();
         let _ = reader.join();
         let _ = std::fs::remove_file(&tmp);
